@@ -19,6 +19,22 @@ CHECKS = {
    "The complete cross product of a reply grammar (18 error spellings x 16 parameter shapes x continues x unknown member x every member order) is received as 9 (P,E) type combinations through receive_reply and call_method; a frame with an `error` member must never come back as success and must be classified exactly as the statement's rules say.",
    "Trusted: 'E recognises the frame' := serde_json::from_slice::<E>(frame) succeeds; the grammar is finite and enumerated completely, frames outside it are not covered.",
    "§3 C04"),
+
+ "C02": ("exploration", "vcheck",
+   "model-based property testing of operation histories (proptest, shrinking) with a model-directed size generator + exhaustive directed sweep of free-space values 0..=600; oracle = model of the wire built from serde_json encodings",
+   "Histories of enqueue_call/send_call/send_reply/send_error/flush with message sizes aimed (by a model of the 256-byte-step write buffer) at every free-space value 0..=600, the exact-fit branch and multi-step spans, with refused messages injected anywhere; the transport's record (one entry per write call) must equal the model's list of writes byte for byte.",
+   "Trusted: serde_json::to_vec as the reference encoding of a message (C03 checks the serializer itself); the capturing write half. The buffer model is used for aiming only.",
+   "§3 C02"),
+ "C03": ("exploration", "vcheck",
+   "differential testing against serde_json::to_vec: exhaustive enumeration of scalar sub-domains (all Unicode scalars, escape pairs/triples, 8/16-bit integers, all f32 in thorough) + proptest trees over the whole serde data model + exhaustive buffer-length sweeps",
+   "Through the cfg(zlink_verif) hook every encode is compared byte for byte with serde_json; finite sub-domains are enumerated completely, the tree space is sampled with shrinking; refused key kinds must give an error; every buffer length 0..=L+2 is tried for sampled values and sampled trees also travel the public send path at dialled fill positions.",
+   "Trusted: serde_json's compact output as the specification; the hook is a plain re-export of the private to_slice.",
+   "§3 C03"),
+ "C07": ("exploration", "vcheck",
+   "property-based testing over (frames, chunking, Pending schedule, cancellation set) with a hand-rolled executor that owns every poll; exhaustive subsets of suspension points for small streams and every-k-th-poll cancellation; oracle = no-cancellation reference model",
+   "The harness polls receive futures by hand and drops them at generated suspension points; the sequence of results must equal the reference decode of each frame. All subsets of <= 12 suspension points of 30 small streams and every k for byte-at-a-time delivery are enumerated.",
+   "Trusted: the simulated read half is itself cancel safe; reference as in C01. Only cancellation of the connection's own receive futures is covered here (the server's use of them is exercised by C08-C10).",
+   "§3 C07"),
 }
 
 REASONS_PENDING = "check not built yet in this session; planned with property-based testing as described in DESIGN.md §3"
